@@ -86,6 +86,11 @@ def Safe (img : Image A) : Commit A → Prop
   | .indexRows rs => ∀ c, c ∈ keys rs → c.tail ∈ keys img.rows ∨ c.tail ∈ keys rs
   | .connect n none => n ≠ [] ∧ n.tail = img.best ∧ n ∈ img.stored ∧ n ∈ keys img.rows ∧ img.marker ≠ none
   | .connect n (some u) => n ≠ [] ∧ n.tail = img.best ∧ n ∈ img.stored ∧ n ∈ keys img.rows ∧ u = utxoOf A n
+  | .connectPrune n ps none =>
+      n ≠ [] ∧ n.tail = img.best ∧ n ∈ img.stored ∧ n ∉ ps ∧ n ∈ keys img.rows ∧ img.marker ≠ none ∧
+      (∀ x, x ∈ ps → x <:+ n → x.length ≤ (effMarker img).length)
+  | .connectPrune n ps (some u) =>
+      n ≠ [] ∧ n.tail = img.best ∧ n ∈ img.stored ∧ n ∉ ps ∧ n ∈ keys img.rows ∧ u = utxoOf A n
   | .disconnect n u => n ≠ [] ∧ n = img.best ∧ n.tail ∈ img.stored ∧ u = utxoOf A n.tail
   | .utxoFlush u m => m <:+ img.best ∧ (effMarker img).length ≤ m.length ∧ u = utxoOf A m
 
@@ -182,6 +187,48 @@ theorem safe_preserves {img : Image A} {c : Commit A} (hi : Inv img) (hs : Safe 
               tip_stored := h3
               tip_row := h4
               rows_closed := hi.rows_closed }
+  | connectPrune n ps fl =>
+    have hmemf : ∀ x, x ∈ img.stored → x ∉ ps → x ∈ img.stored.filter (· ∉ ps) := by
+      intro x hx hnp; exact List.mem_filter.mpr ⟨hx, by simpa using hnp⟩
+    cases fl with
+    | none =>
+      obtain ⟨h1, h2, h3, h3', h4, h5, h6⟩ := hs
+      have hm : effMarker (apply img (.connectPrune n ps none)) = effMarker img := rfl
+      exact { created := hi.created
+              marker_anc := by
+                rw [hm]; show effMarker img <:+ n
+                exact List.IsSuffix.trans (h2 ▸ hi.marker_anc) (suffix_tail_of_ne h1)
+              marker_none := fun h => absurd h h5
+              utxo_eq := hi.utxo_eq
+              between := by
+                intro s hs1 hs2
+                rw [hm] at hs2
+                have hs1' : s <:+ n := hs1
+                have hnp : s ∉ ps := fun hin => by
+                  have := h6 s hin hs1'
+                  omega
+                refine hmemf s ?_ hnp
+                rcases suffix_of_tail_eq h1 hs1' with h | h
+                · subst h; exact h3
+                · exact hi.between s (h2 ▸ h) hs2
+              tip_stored := hmemf n h3 h3'
+              tip_row := h4
+              rows_closed := hi.rows_closed }
+    | some u =>
+      obtain ⟨h1, h2, h3, h3', h4, h5⟩ := hs
+      have hm : effMarker (apply img (.connectPrune n ps (some u))) = n := rfl
+      exact { created := hi.created
+              marker_anc := by rw [hm]; exact List.suffix_refl n
+              marker_none := by simp [apply]
+              utxo_eq := by rw [hm]; exact h5
+              between := by
+                intro s hs1 hs2
+                rw [hm] at hs2
+                have := List.IsSuffix.length_le (show s <:+ n from hs1)
+                omega
+              tip_stored := hmemf n h3 h3'
+              tip_row := h4
+              rows_closed := hi.rows_closed }
   | disconnect n u =>
     obtain ⟨h1, h2, h3, h4⟩ := hs
     have hm : effMarker (apply img (.disconnect n u)) = n.tail := rfl
@@ -261,6 +308,7 @@ theorem safe_preserves' {img : Image A} {c : Commit A} (hi : Inv' img) (hs : Saf
   | storeBlock n => exact key _ hs.1 hs.2
   | indexRows rs => exact key _ hs.1 hs.2
   | connect n fl => exact key _ hs.1 hs.2
+  | connectPrune n ps fl => exact key _ hs.1 hs.2
   | disconnect n u => exact key _ hs.1 hs.2
   | utxoFlush u m => exact key _ hs.1 hs.2
 
